@@ -97,12 +97,12 @@ def run(ctx):
     # the driver insists on a replacement having happened
     asserts = [n for n in iter_own(spy.node) if isinstance(n, ast.Assert) and "replaced" in norm(n.test)]
     ctx.ob("C13.visitor", spy, "assert rewrite_at_query.replaced", bool(asserts), "" if asserts else "a failed replacement would pass silently", line=spy.node.lineno)
-    _once(ctx, index)
+    ctx.section(_once, ctx, index)
     # --------------------------------------------------------------- index
-    _index_spaces(ctx, index)
-    _receiver_shift_agreement(ctx, index)
-    _wrap_unconditional(ctx, index, spy, facts_at)
-    _lookups(ctx, index, spy)
+    ctx.section(_index_spaces, ctx, index)
+    ctx.section(_receiver_shift_agreement, ctx, index)
+    ctx.section(_wrap_unconditional, ctx, index, spy, facts_at)
+    ctx.section(_lookups, ctx, index, spy)
 
 
 def _once(ctx, index):
